@@ -20,13 +20,14 @@ K_TIME, K_TID, K_LIN = 0, 1, 2
 K_POS = 3  # single key "pos"; per-axis storage uses 3,4,(5) for the axis keys
 K_AREA, K_ELL, K_CIRC, K_PERIM, K_IOU = 10, 11, 12, 13, 14
 K_SCORE, K_NOTE, K_W = 20, 21, 22  # custom: registered node feature, unregistered node attr, registered edge feature
+K_NODEID = 23  # the attribute "node_id" that TracksController.add_nodes leaves on nodes added with pixels
 K_BOGUS = 99  # a key no annotator knows (KeyError on enable/disable)
 
 RP_KEYS = {K_POS: "pos", K_AREA: "area", K_ELL: "ellipse_axis_radii", K_CIRC: "circularity",
            K_PERIM: "perimeter"}
 NAME = {K_TIME: "time", K_TID: "track_id", K_LIN: "lineage_id", K_POS: "pos", K_AREA: "area",
         K_ELL: "ellipse_axis_radii", K_CIRC: "circularity", K_PERIM: "perimeter", K_IOU: "iou",
-        K_SCORE: "score", K_NOTE: "note", K_W: "w", K_BOGUS: "no_such_feature"}
+        K_SCORE: "score", K_NOTE: "note", K_W: "w", K_NODEID: "node_id", K_BOGUS: "no_such_feature"}
 
 
 def axis_names(ndim: int) -> list[str]:
@@ -92,7 +93,12 @@ class Case:
         kw: dict[str, Any] = dict(segmentation=seg, scale=scale_obj, ndim=self.ndim)
         if self.cfg == "axes":
             kw["pos_attr"] = axis_names(self.ndim)
-        tracks = SolutionTracks(g, **kw)
+        if sp.get("via") == "from_tracks" and not sp.get("prebuilt"):
+            # the solution is obtained by converting a plain Tracks object
+            from funtracks.data_model import Tracks
+            tracks = SolutionTracks.from_tracks(Tracks(g, **kw))
+        else:
+            tracks = SolutionTracks(g, **kw)
         # custom features: registered node feature "score", registered edge feature "w"
         tracks.features["score"] = {"feature_type": "node", "value_type": "int", "num_values": 1,
                                     "required": False, "default_value": None}
